@@ -10,7 +10,7 @@ path must be non-zero in the batch, else the check reports insufficient reach (e
 """
 import os, sys, json, re
 from common import *
-import vfbuild, pipelines, treegen, sqfsdec
+import vfbuild, blockproc, pipelines, treegen, sqfsdec
 
 PROP = "C08"
 NEED_PROBES = ["frag_cmp_inflight", "frag_cmp_current", "frag_cmp_reread", "frag_cmp_differ", "frag_cmp_equal",
@@ -186,6 +186,8 @@ def rerun(bdir, caseseed, v):
 
 
 def replay(spec, bdir=None):
+    if spec.get('engine') == 'scn-blockproc':
+        return blockproc.replay(spec, bdir)
     bdir = bdir or vfbuild.build()
     cl, o = rerun(bdir, spec["case_seed"], spec["v"])
     want = spec["clause"].replace("serial:", "")
@@ -261,6 +263,11 @@ def main():
     for p in NEED_PROBES:
         if probes.get(p, 0) == 0:
             rep.harness_error("insufficient reach: probe %s never hit" % p)
+    # library-level stage: the same components in-process, many more schedules per workload (scn/blockproc.c, py/blockproc.py)
+    lib = blockproc.stage(rep, PROP, bdir, seed, t)
+    cov["library_level_stage"] = lib
+    cov["evaluations"] = cov.get("evaluations", 0) + lib["runs"]
+    cov["distinct_nontrivial"] = cov.get("distinct_nontrivial", 0) + lib["runs_with_interleaving"]
     return rep.finish(cov, ["collisions are forced on the checksum only; equal *compressed sizes* come from the workload (equal-length incompressible data)",
                             "schedules sampled; the reach probes say which compare paths the batch actually drove"])
 
